@@ -208,7 +208,7 @@ pub fn run(cfg: &Cfg, rep: &mut Rep) {
         }
     }
     let mut r = Rng::new(cfg.seed, 0x0400 + sh as u64);
-    let nrand = cfg.budget(1_500_000);
+    let nrand = cfg.budget(6_000_000);
     for k in 0..nrand {
         let si = r.below(9) as usize;
         let s = SCALES[si];
